@@ -139,7 +139,7 @@ struct Outcome {
 template<class T> void do_potrf(Case const& c) {
 	namespace lapack = multi::lapack;
 	Desc const& d = c.A;
-	long const n = d.n;
+	long const n = d.m;   // the order of the matrix: the rows of the view (d.m <= d.n; further columns are not part of it)
 	Rng rng{c.seed};
 	std::vector<T> buf(static_cast<std::size_t>(d.len()));
 	for(auto& x : buf) { x = mk<T>(rng.garbage(), is_cx<T>::value ? rng.garbage() : 0.0); }
@@ -163,13 +163,13 @@ template<class T> void do_potrf(Case const& c) {
 	Outcome oc;
 	with_view(buf, d, [&](auto& A) {
 		for(long i = 0; i != n; ++i) { for(long j = 0; j != n; ++j) { if(lower ? j <= i : i <= j) { A[i][j] = H[i][j]; } } }   // the other triangle keeps its garbage
-		cells = cells_of(A, buf, n, n);
+		cells = cells_of(A, buf, d.m, d.n);
 		before = buf;
 		oc.run([&] {
 			auto&& r = lapack::potrf(lower ? lapack::filling::lower : lapack::filling::upper, A);
 			rows = static_cast<long>(r.size());
 			cols = rows > 0 ? static_cast<long>((~r).size()) : 0;
-			if(rows >= 0 && rows <= n && cols >= 0 && cols <= n) { rcells = cells_of(r, buf, rows, cols); }
+			if(rows >= 0 && rows <= d.m && cols >= 0 && cols <= d.n) { rcells = cells_of(r, buf, rows, cols); }
 		});
 	});
 	std::cout << "{\"id\":" << c.id << "," << oc.json() << ",\"cells\":" << jcells(cells)
